@@ -34,6 +34,7 @@ type Op struct {
 	Buf    int    `json:"b,omitempty"`  // 0 = exact private copy, k = ring buffer k of this task
 	Pat    string `json:"p,omitempty"`  // scribble pattern
 	Hold   bool   `json:"h,omitempty"`  // keep the decoded value alive and re-check it later
+	Self   bool   `json:"sf,omitempty"` // the input buffer is the []byte the target already holds (in := v.Payload; Unmarshal(in, &v))
 	Arg    int    `json:"a,omitempty"`
 }
 
@@ -195,6 +196,9 @@ func (sc *Scenario) genValue(op *Op) reflect.Value {
 		o.Vocab = sc.Vocabs[op.Vocab-1]
 	}
 	o.NonCanonical = op.Pat == "raw"
+	if op.VSize > 60 {
+		o.Fanout = op.VSize - 40 // records with dozens of elements in their first-level slices
+	}
 	v := world.Gen(ti.T, &r, o)
 	if op.Mut != 0 {
 		mr := engine.PRNG{S: op.Mut}
